@@ -286,6 +286,10 @@ def run(ctx):
     from props import C02 as _c02
     _c02.verify_split_gpg(ctx, real)       # the reader's line filter: nothing but matching lines is cut off or taken for armor
     _c02.verify_internal_parser(ctx, real)  # the field-collecting loop against its recursive specification
+    # an accepted assignment files the name in the paragraph's OrderedSet: the containers under contract (as in C09) - an
+    # operation that fails with KeyError / ValueError leaves table and order consistent, so a stored field cannot drop out of the dump
+    from props import C09 as _c09
+    _c09.verify_ordering_machinery(ctx)
     rng = random.Random(ctx.seed)
     Deb822 = real.Deb822
     N = 5 if ctx.tier == "quick" else 6
